@@ -526,3 +526,548 @@ Corollary relex_identity_ser evs : lexable evs = true -> relex_identity (ser evs
 Proof.
   intro H. unfold relex_identity. rewrite (html_lex_ser _ H), toks_of_print. apply bytes_eqb_eq. reflexivity.
 Qed.
+
+(* ---- safe events are lexable ---- *)
+Lemma starts_with_length : forall p s, starts_with s p = true -> List.length p <= List.length s.
+Proof.
+  induction p as [|y p IH]; intros s H; [apply le_0_n|].
+  destruct s as [|x s]; [discriminate H|]. cbn [starts_with] in H.
+  apply andb_true_iff in H. destruct H as [_ H]. apply IH in H. cbn [List.length]. lia.
+Qed.
+
+Lemma starts_with_app_l : forall p s t, starts_with s p = true -> starts_with (s ++ t) p = true.
+Proof.
+  induction p as [|y p IH]; intros s t H; [reflexivity|].
+  destruct s as [|x s]; [discriminate H|]. cbn [starts_with app] in *.
+  apply andb_true_iff in H. destruct H as [H1 H2]. rewrite H1, (IH _ t H2). reflexivity.
+Qed.
+
+(* position-wise form of text_ok: every ampersand begins one of the four entities, no other byte
+   is active *)
+Fixpoint txt_okp (s : bytes) : bool :=
+  match s with
+  | [] => true
+  | b :: r =>
+    (if beqb b x26
+     then starts_with s amp_ent || starts_with s lt_ent || starts_with s gt_ent || starts_with s quot_ent
+     else no_active_byte b) && txt_okp r
+  end.
+
+Lemma option_map_some {A B} (f : A -> B) x : option_map f x <> None <-> x <> None.
+Proof. destruct x; cbn [option_map]; split; intro H; congruence. Qed.
+
+Lemma txt_okp_amp r : txt_okp (amp_ent ++ r) = txt_okp r. Proof. reflexivity. Qed.
+Lemma txt_okp_lt r : txt_okp (lt_ent ++ r) = txt_okp r. Proof. reflexivity. Qed.
+Lemma txt_okp_gt r : txt_okp (gt_ent ++ r) = txt_okp r. Proof. reflexivity. Qed.
+Lemma txt_okp_quot r : txt_okp (quot_ent ++ r) = txt_okp r. Proof. reflexivity. Qed.
+
+Lemma unescape_okp : forall s k,
+  html_unescape_skip k s <> None -> txt_okp (skipn k s) = true /\ k <= List.length s.
+Proof.
+  induction s as [|b r IH]; intros k H.
+  - destruct k; [split; [reflexivity|lia]|]. exfalso. apply H. reflexivity.
+  - destruct k as [|k].
+    2:{ cbn [html_unescape_skip] in H. destruct (IH k H) as [A L]. split; [exact A|]. cbn [List.length]. lia. }
+    cbn [html_unescape_skip] in H. split; [|apply le_0_n]. cbn [skipn].
+    destruct (beqb b x26) eqn:Eb.
+    + apply beqb_eq in Eb. subst b.
+      destruct (starts_with (x26 :: r) amp_ent) eqn:E1;
+      [|destruct (starts_with (x26 :: r) lt_ent) eqn:E2;
+        [|destruct (starts_with (x26 :: r) gt_ent) eqn:E3;
+          [|destruct (starts_with (x26 :: r) quot_ent) eqn:E4; [|exfalso; apply H; reflexivity]]]];
+      apply option_map_some in H; apply IH in H; destruct H as [H _];
+      match goal with E : starts_with _ ?ent = true |- _ =>
+        apply starts_with_app in E; destruct E as [rest E]; unfold ent in E; cbn [app] in E;
+        injection E as ->; cbn [skipn] in H end.
+      * exact H. * exact H. * exact H. * exact H.
+    + destruct (beqb b x3c || beqb b x3e || beqb b x22) eqn:Ea; [exfalso; apply H; reflexivity|].
+      apply option_map_some in H. apply IH in H. destruct H as [H _]. cbn [skipn] in H.
+      cbn [txt_okp]. rewrite Eb, H. unfold no_active_byte. rewrite Ea. reflexivity.
+Qed.
+
+Lemma okp_unescape : forall s k,
+  txt_okp s = true -> k <= List.length s -> html_unescape_skip k s <> None.
+Proof.
+  induction s as [|b r IH]; intros k H L.
+  - cbn [List.length] in L. assert (k = 0) as -> by lia. discriminate.
+  - cbn [txt_okp] in H. apply andb_true_iff in H. destruct H as [Hb Hr].
+    destruct k as [|k]; cbn [html_unescape_skip].
+    2:{ apply IH; [exact Hr|]. cbn [List.length] in L. lia. }
+    destruct (beqb b x26) eqn:Eb.
+    + destruct (starts_with (b :: r) amp_ent) eqn:E1;
+      [|destruct (starts_with (b :: r) lt_ent) eqn:E2;
+        [|destruct (starts_with (b :: r) gt_ent) eqn:E3;
+          [|destruct (starts_with (b :: r) quot_ent) eqn:E4; [|discriminate Hb]]]];
+      apply option_map_some; apply IH; try exact Hr;
+      match goal with E : starts_with _ ?ent = true |- _ =>
+        apply starts_with_length in E; unfold ent in E; cbn [List.length] in E; lia end.
+    + unfold no_active_byte in Hb. apply negb_true_iff in Hb. rewrite Hb.
+      apply option_map_some. apply IH; [exact Hr|apply le_0_n].
+Qed.
+
+Lemma text_ok_okp s : text_ok s = true <-> txt_okp s = true.
+Proof.
+  unfold text_ok, html_unescape. split; intro H.
+  - destruct (html_unescape_skip 0 s) eqn:E; [|discriminate H].
+    assert (html_unescape_skip 0 s <> None) as N by (rewrite E; discriminate).
+    exact (proj1 (unescape_okp s 0 N)).
+  - pose proof (okp_unescape s 0 H (le_0_n _)) as N.
+    destruct (html_unescape_skip 0 s); [reflexivity|contradiction N; reflexivity].
+Qed.
+
+Lemma txt_okp_app : forall a b, txt_okp a = true -> txt_okp b = true -> txt_okp (a ++ b) = true.
+Proof.
+  induction a as [|x a IH]; intros b Ha Hb; [exact Hb|].
+  cbn [txt_okp] in Ha. apply andb_true_iff in Ha. destruct Ha as [Hx Ha].
+  change ((x :: a) ++ b) with (x :: (a ++ b)). cbn [txt_okp]. rewrite (IH b Ha Hb), andb_true_r.
+  destruct (beqb x x26); [|exact Hx].
+  change (x :: a ++ b) with ((x :: a) ++ b).
+  repeat (apply orb_true_iff in Hx; destruct Hx as [Hx|Hx]);
+    rewrite (starts_with_app_l _ _ b Hx); rewrite ?orb_true_r; reflexivity.
+Qed.
+
+Lemma txt_okp_no_active : forall s, txt_okp s = true -> forallb no_active_byte s = true.
+Proof.
+  induction s as [|b r IH]; intro H; [reflexivity|].
+  cbn [txt_okp] in H. apply andb_true_iff in H. destruct H as [Hb Hr].
+  cbn [forallb]. rewrite (IH Hr), andb_true_r.
+  destruct (beqb b x26) eqn:Eb; [|exact Hb]. apply beqb_eq in Eb. subst b. reflexivity.
+Qed.
+
+Lemma inert_txt_okp : forall s, forallb inert_byte s = true -> txt_okp s = true.
+Proof.
+  induction s as [|b r IH]; intro H; [reflexivity|].
+  cbn [forallb] in H. apply andb_true_iff in H. destruct H as [Hb Hr].
+  cbn [txt_okp]. rewrite (IH Hr), andb_true_r.
+  unfold inert_byte in Hb. apply negb_true_iff in Hb. apply orb_false_iff in Hb. destruct Hb as [Hb Ha].
+  rewrite Ha. unfold no_active_byte. rewrite Hb. reflexivity.
+Qed.
+
+Lemma escape_txt_okp s : txt_okp (escape_spec s) = true.
+Proof. apply text_ok_okp. unfold text_ok. rewrite unescape_escape. reflexivity. Qed.
+
+Lemma part_safe_lex p : part_safe p = true -> part_lex p = true.
+Proof.
+  destruct p; cbn [part_safe part_lex]; intro H; try reflexivity.
+  - apply inert_no_active_l, H.
+  - apply txt_okp_no_active, text_ok_okp. exact H.
+Qed.
+
+(* names: the vocabulary is made of lexable names *)
+Definition vocab_lex : bool :=
+  forallb (fun p => tagname_ok (B (fst p)) && forallb (fun a => attrname_ok (B a)) (snd p)) vocab &&
+  forallb (fun v => tagname_ok (B v)) void_tags && attrname_ok sp_name.
+Lemma vocab_lex_ok : vocab_lex = true. Proof. vm_compute. reflexivity. Qed.
+
+Lemma lookup_tag_in t l : lookup_tag t = Some l -> exists p, In p vocab /\ t = B (fst p) /\ l = snd p.
+Proof.
+  unfold lookup_tag. destruct (find _ vocab) as [p|] eqn:F; [|discriminate].
+  intro H. injection H as <-. apply find_some in F. destruct F as [I E].
+  apply bytes_eqb_eq in E. exists p. repeat split; [exact I | symmetry; exact E].
+Qed.
+
+Lemma lookup_tag_lex t l : lookup_tag t = Some l ->
+  tagname_ok t = true /\ forallb (fun a => attrname_ok (B a)) l = true.
+Proof.
+  intro H. destruct (lookup_tag_in _ _ H) as (p & I & -> & ->).
+  pose proof vocab_lex_ok as V. unfold vocab_lex in V.
+  apply andb_true_iff in V. destruct V as [V _]. apply andb_true_iff in V. destruct V as [V _].
+  rewrite forallb_forall in V. specialize (V p I). apply andb_true_iff in V. exact V.
+Qed.
+
+Lemma void_tag_lex t : is_void_tag t = true -> tagname_ok t = true.
+Proof.
+  unfold is_void_tag. intro H. apply existsb_exists in H. destruct H as (v & I & E).
+  apply bytes_eqb_eq in E. subst t.
+  pose proof vocab_lex_ok as V. unfold vocab_lex in V.
+  apply andb_true_iff in V. destruct V as [V _]. apply andb_true_iff in V. destruct V as [_ V].
+  rewrite forallb_forall in V. exact (V v I).
+Qed.
+
+Lemma attr_allowed_lex t n : attr_allowed t n = true -> attrname_ok n = true.
+Proof.
+  unfold attr_allowed. intro H. apply orb_true_iff in H. destruct H as [H|H].
+  - apply bytes_eqb_eq in H. subst n. reflexivity.
+  - destruct (lookup_tag t) as [l|] eqn:L; [|discriminate H].
+    apply existsb_exists in H. destruct H as (a & I & E). apply bytes_eqb_eq in E. subst n.
+    destruct (lookup_tag_lex _ _ L) as [_ A]. rewrite forallb_forall in A. exact (A a I).
+Qed.
+
+Lemma attr_safe_lex t a : attr_safe t a = true -> attr_lex a = true.
+Proof.
+  destruct a as [n v|n|sp]; cbn [attr_safe attr_lex]; intro H.
+  - apply andb_true_iff in H. destruct H as [H _]. apply andb_true_iff in H. destruct H as [Hn Hv].
+    rewrite (attr_allowed_lex _ _ Hn). cbn [andb].
+    apply (forallb_impl part_safe); [apply part_safe_lex | exact Hv].
+  - exact (attr_allowed_lex _ _ H).
+  - reflexivity.
+Qed.
+
+Lemma attrs_safe_lex t a : forallb (attr_safe t) a = true -> forallb attr_lex a = true.
+Proof. apply forallb_impl. apply attr_safe_lex. Qed.
+
+Lemma inert_notlt_l l : forallb inert_byte l = true -> forallb notlt l = true.
+Proof. intro H. apply no_active_notlt_l, inert_no_active_l, H. Qed.
+
+Lemma safe_ev_lex e : safe_ev e = true -> lex_ev e = true.
+Proof.
+  destruct e as [t a|t|t a|b|b|b| |]; cbn [safe_ev lex_ev]; intro H; try reflexivity.
+  - apply andb_true_iff in H. destruct H as [H Ha]. apply andb_true_iff in H. destruct H as [Ht _].
+    destruct (lookup_tag t) as [l|] eqn:L; [|discriminate Ht].
+    rewrite (proj1 (lookup_tag_lex _ _ L)), (attrs_safe_lex _ _ Ha). reflexivity.
+  - apply andb_true_iff in H. destruct H as [Ht _].
+    destruct (lookup_tag t) as [l|] eqn:L; [|discriminate Ht]. exact (proj1 (lookup_tag_lex _ _ L)).
+  - apply andb_true_iff in H. destruct H as [Ht Ha].
+    rewrite (void_tag_lex _ Ht), (attrs_safe_lex _ _ Ha). reflexivity.
+  - apply inert_notlt_l, H.
+  - apply inert_notlt_l, H.
+Qed.
+
+Theorem safe_lexable evs : forallb safe_ev evs = true -> lexable evs = true.
+Proof. apply forallb_impl. apply safe_ev_lex. Qed.
+
+(* ------------------------------------------------------------------ Part 4 *)
+(* ---- nesting ---- *)
+Fixpoint pnest (stack : list bytes) (ps : list piece) : option (list bytes) :=
+  match ps with
+  | [] => Some stack
+  | PTok k :: r =>
+    match tok_nest stack [k] with Some s => pnest s r | None => None end
+  | PTxt _ :: r => pnest stack r
+  end.
+
+Lemma tok_nest_flush pend ts s : tok_nest s (flush pend ++ ts) = tok_nest s ts.
+Proof. destruct pend; reflexivity. Qed.
+
+Lemma tok_nest_merge : forall ps pend s, tok_nest s (merge pend ps) = pnest s ps.
+Proof.
+  induction ps as [|p r IH]; intros pend s; cbn [merge pnest].
+  - destruct pend; reflexivity.
+  - destruct p as [k|b]; [|apply IH].
+    rewrite tok_nest_flush.
+    destruct k as [t a|t a|t|b|]; cbn [tok_nest]; try apply IH.
+    destruct s as [|t' s']; [reflexivity|]. destruct (bytes_eqb t t'); [apply IH|reflexivity].
+Qed.
+
+Lemma pnest_pieces : forall evs l s, pnest s (pieces l evs) = nest s evs.
+Proof.
+  induction evs as [|e r IH]; intros l s; [reflexivity|].
+  destruct e as [t a|t|t a|b|b|b| |]; cbn [pieces piece_of pnest nest tok_nest]; try apply IH.
+  - destruct s as [|t' s']; [reflexivity|]. destruct (bytes_eqb t t'); [apply IH|reflexivity].
+  - destruct l; cbn [pnest]; apply IH.
+Qed.
+
+Theorem tok_nest_toks_of evs s : tok_nest s (toks_of evs) = nest s evs.
+Proof. unfold toks_of. rewrite tok_nest_merge. apply pnest_pieces. Qed.
+
+(* ---- safety ---- *)
+(* position-wise form of value_ok *)
+Fixpoint amp_ok (s : bytes) : bool :=
+  match s with
+  | [] => true
+  | b :: r =>
+    (if beqb b x26
+     then starts_with s amp_ent || starts_with s lt_ent || starts_with s gt_ent ||
+          starts_with s quot_ent || starts_with s apos_ent
+     else true) && amp_ok r
+  end.
+
+Lemma amp_ok_value : forall s k, amp_ok s = true -> k <= List.length s -> value_ok_skip k s = true.
+Proof.
+  induction s as [|b r IH]; intros k H L.
+  - cbn [List.length] in L. assert (k = 0) as -> by lia. reflexivity.
+  - cbn [amp_ok] in H. apply andb_true_iff in H. destruct H as [Hb Hr].
+    destruct k as [|k]; cbn [value_ok_skip].
+    2:{ apply IH; [exact Hr|]. cbn [List.length] in L. lia. }
+    destruct (beqb b x26) eqn:Eb; [|apply IH; [exact Hr|apply le_0_n]].
+    destruct (starts_with (b :: r) amp_ent) eqn:E1;
+    [|destruct (starts_with (b :: r) lt_ent) eqn:E2;
+      [|destruct (starts_with (b :: r) gt_ent) eqn:E3;
+        [|destruct (starts_with (b :: r) quot_ent) eqn:E4;
+          [|destruct (starts_with (b :: r) apos_ent) eqn:E5; [|discriminate Hb]]]]];
+    apply IH; try exact Hr;
+    match goal with E : starts_with _ ?ent = true |- _ =>
+      apply starts_with_length in E; unfold ent in E; cbn [List.length] in E; lia end.
+Qed.
+
+Lemma amp_ok_app : forall a b, amp_ok a = true -> amp_ok b = true -> amp_ok (a ++ b) = true.
+Proof.
+  induction a as [|x a IH]; intros b Ha Hb; [exact Hb|].
+  cbn [amp_ok] in Ha. apply andb_true_iff in Ha. destruct Ha as [Hx Ha].
+  change ((x :: a) ++ b) with (x :: (a ++ b)). cbn [amp_ok]. rewrite (IH b Ha Hb), andb_true_r.
+  destruct (beqb x x26); [|reflexivity].
+  change (x :: a ++ b) with ((x :: a) ++ b).
+  repeat (apply orb_true_iff in Hx; destruct Hx as [Hx|Hx]);
+    rewrite (starts_with_app_l _ _ b Hx); rewrite ?orb_true_r; reflexivity.
+Qed.
+
+Lemma txt_okp_amp_ok : forall s, txt_okp s = true -> amp_ok s = true.
+Proof.
+  induction s as [|b r IH]; intro H; [reflexivity|].
+  cbn [txt_okp] in H. apply andb_true_iff in H. destruct H as [Hb Hr].
+  cbn [amp_ok]. rewrite (IH Hr), andb_true_r.
+  destruct (beqb b x26); [|reflexivity]. rewrite Hb. reflexivity.
+Qed.
+
+Definition noamp (b : byte) : bool := negb (beqb b x26).
+
+Lemma noamp_amp_ok : forall s, forallb noamp s = true -> amp_ok s = true.
+Proof.
+  induction s as [|b r IH]; intro H; [reflexivity|].
+  cbn [forallb] in H. apply andb_true_iff in H. destruct H as [Hb Hr].
+  cbn [amp_ok]. rewrite (IH Hr), andb_true_r. unfold noamp in Hb. apply negb_true_iff in Hb.
+  rewrite Hb. reflexivity.
+Qed.
+
+Lemma href1_amp_ok : forall b, amp_ok (href1_spec b) = true.
+Proof. apply forall_bytes. vm_compute. reflexivity. Qed.
+
+Lemma href_amp_ok : forall s, amp_ok (escape_href_spec s) = true.
+Proof.
+  induction s as [|b r IH]; [reflexivity|].
+  change (escape_href_spec (b :: r)) with (href1_spec b ++ escape_href_spec r).
+  apply amp_ok_app; [apply href1_amp_ok | exact IH].
+Qed.
+
+Lemma inert_noamp : forall b, implb (inert_byte b) (noamp b) = true.
+Proof. apply forall_bytes. vm_compute. reflexivity. Qed.
+Lemma digit_noamp : forall b, implb (is_digit b) (noamp b) = true.
+Proof. apply forall_bytes. vm_compute. reflexivity. Qed.
+
+Lemma ser_part_amp_ok p : part_safe p = true -> amp_ok (ser_part p) = true.
+Proof.
+  destruct p; cbn [part_safe ser_part]; intro H.
+  - apply txt_okp_amp_ok, escape_txt_okp.
+  - apply href_amp_ok.
+  - apply noamp_amp_ok. revert H. apply forallb_impl. intro x. apply implb_use, inert_noamp.
+  - apply txt_okp_amp_ok, text_ok_okp. exact H.
+Qed.
+
+Lemma ser_parts_amp_ok v : forallb part_safe v = true -> amp_ok (flat_map ser_part v) = true.
+Proof.
+  induction v as [|p v IH]; intro H; [reflexivity|].
+  cbn [forallb] in H. apply andb_true_iff in H. destruct H as [Hp Hv].
+  cbn [flat_map]. apply amp_ok_app; [apply ser_part_amp_ok, Hp | apply IH, Hv].
+Qed.
+
+Lemma amp_ok_value_ok s : amp_ok s = true -> value_ok s = true.
+Proof. intro H. apply amp_ok_value; [exact H | apply le_0_n]. Qed.
+
+Lemma ser_sp_value_ok sp : value_ok (ser_sp sp) = true.
+Proof.
+  apply amp_ok_value_ok, noamp_amp_ok. unfold ser_sp. rewrite !forallb_app.
+  assert (forall n, forallb noamp (dec n) = true) as D.
+  { intro n. apply (forallb_impl is_digit); [intro x; apply implb_use, digit_noamp | apply dec_digits]. }
+  rewrite !D. reflexivity.
+Qed.
+
+(* the URL scheme test sees the same thing before and after escape_href *)
+Definition schemeb (y : byte) : bool := is_lower y || beqb y x3a || beqb y x2f.
+
+Definition href_scheme_byte (b y : byte) : bool :=
+  implb (schemeb y)
+    (if url_safe_spec b then bytes_eqb (href1_spec b) [b]
+     else negb (beqb (to_lower_ascii b) y) &&
+          match href1_spec b with [] => false | h :: _ => negb (beqb (to_lower_ascii h) y) end).
+
+Lemma href_scheme_byte_all : forall b y, href_scheme_byte b y = true.
+Proof. apply forall_bytes2. vm_compute. reflexivity. Qed.
+
+Lemma ci_starts_href : forall p u, forallb schemeb p = true ->
+  ci_starts (escape_href_spec u) p = ci_starts u p.
+Proof.
+  induction p as [|y p IH]; intros u Hp; [reflexivity|].
+  cbn [forallb] in Hp. apply andb_true_iff in Hp. destruct Hp as [Hy Hp].
+  destruct u as [|b u]; [reflexivity|].
+  change (escape_href_spec (b :: u)) with (href1_spec b ++ escape_href_spec u).
+  pose proof (href_scheme_byte_all b y) as F. unfold href_scheme_byte in F. rewrite Hy in F. cbn [implb] in F.
+  destruct (url_safe_spec b).
+  - apply bytes_eqb_eq in F. rewrite F. cbn [app ci_starts]. rewrite (IH u Hp). reflexivity.
+  - apply andb_true_iff in F. destruct F as [F1 F2]. apply negb_true_iff in F1.
+    destruct (href1_spec b) as [|h t]; [discriminate F2|]. apply negb_true_iff in F2.
+    cbn [app ci_starts]. rewrite F1, F2. reflexivity.
+Qed.
+
+Lemma dangerous_href u : dangerous_spec (escape_href_spec u) = dangerous_spec u.
+Proof.
+  unfold dangerous_spec. rewrite !ci_starts_href by (vm_compute; reflexivity). reflexivity.
+Qed.
+
+Lemma dangerous_fragment z : dangerous_spec (x23 :: z) = false.
+Proof. reflexivity. Qed.
+
+Lemma url_value_tok v : url_value_safe v = true -> dangerous_spec (flat_map ser_part v) = false.
+Proof.
+  unfold url_value_safe. destruct v as [|p r]; [reflexivity|].
+  destruct p as [b|b|b|b]; intro H.
+  - destruct r; discriminate H.
+  - destruct r; [|discriminate H]. cbn [flat_map ser_part]. rewrite app_nil_r, dangerous_href.
+    apply negb_true_iff, H.
+  - apply andb_true_iff in H. destruct H as [H _]. destruct b as [|x c]; [discriminate H|].
+    destruct (beqb_spec x x23) as [->|N]; [apply dangerous_fragment|].
+    exfalso. revert H N. clear. destruct x; intros H N; try discriminate H. apply N. reflexivity.
+  - destruct r; discriminate H.
+Qed.
+
+Lemma tok_attr_safe t a : attr_safe t a = true -> tok_attr_ok t (tok_attr a) = true.
+Proof.
+  destruct a as [n v|n|sp]; cbn [attr_safe tok_attr tok_attr_ok]; intro H.
+  - apply andb_true_iff in H. destruct H as [H Hu]. apply andb_true_iff in H. destruct H as [Hn Hv].
+    rewrite Hn, (amp_ok_value_ok _ (ser_parts_amp_ok _ Hv)). cbn [andb].
+    destruct (is_url_attr n); [|reflexivity]. rewrite (url_value_tok _ Hu). reflexivity.
+  - rewrite H. reflexivity.
+  - rewrite ser_sp_value_ok. reflexivity.
+Qed.
+
+Lemma tok_attrs_safe t a :
+  forallb (attr_safe t) a = true -> forallb (tok_attr_ok t) (map tok_attr a) = true.
+Proof.
+  intro H. rewrite forallb_forall in *. intros x Hx. apply in_map_iff in Hx.
+  destruct Hx as (y & <- & Hy). apply tok_attr_safe, H, Hy.
+Qed.
+
+Definition piece_safe (p : piece) : bool :=
+  match p with PTok k => tok_safe k | PTxt b => txt_okp b end.
+
+Lemma piece_of_safe e : safe_ev e = true -> piece_safe (piece_of e) = true.
+Proof.
+  destruct e as [t a|t|t a|b|b|b| |]; cbn [safe_ev piece_of piece_safe tok_safe]; intro H;
+    try exact H; try reflexivity.
+  - apply andb_true_iff in H. destruct H as [H Ha]. rewrite H, (tok_attrs_safe _ _ Ha). reflexivity.
+  - apply andb_true_iff in H. destruct H as [H Ha]. rewrite H, (tok_attrs_safe _ _ Ha). reflexivity.
+  - apply escape_txt_okp.
+  - apply inert_txt_okp, H.
+  - apply inert_txt_okp, H.
+Qed.
+
+Lemma pieces_safe : forall evs l,
+  forallb safe_ev evs = true -> forallb piece_safe (pieces l evs) = true.
+Proof.
+  induction evs as [|e r IH]; intros l H; [reflexivity|].
+  cbn [forallb] in H. apply andb_true_iff in H. destruct H as [He Hr].
+  destruct e; cbn [pieces]; try (cbn [forallb]; rewrite (piece_of_safe _ He), IH by exact Hr; reflexivity).
+  destruct l; [apply IH, Hr|]. cbn [forallb piece_safe]. rewrite IH by exact Hr. reflexivity.
+Qed.
+
+Lemma flush_safe pend : txt_okp pend = true -> forallb tok_safe (flush pend) = true.
+Proof.
+  destruct pend; [reflexivity|]. intro H. cbn [flush forallb tok_safe].
+  rewrite (proj2 (text_ok_okp _) H). reflexivity.
+Qed.
+
+Lemma merge_safe : forall ps pend,
+  txt_okp pend = true -> forallb piece_safe ps = true -> forallb tok_safe (merge pend ps) = true.
+Proof.
+  induction ps as [|p r IH]; intros pend Hp H; cbn [merge].
+  - apply flush_safe, Hp.
+  - cbn [forallb] in H. apply andb_true_iff in H. destruct H as [Hk Hr].
+    destruct p as [k|b]; cbn [piece_safe] in Hk.
+    + rewrite forallb_app, (flush_safe _ Hp). cbn [forallb]. rewrite Hk, (IH [] eq_refl Hr). reflexivity.
+    + apply IH; [|exact Hr]. apply txt_okp_app; assumption.
+Qed.
+
+Theorem toks_of_safe evs : forallb safe_ev evs = true -> forallb tok_safe (toks_of evs) = true.
+Proof. intro H. apply merge_safe; [reflexivity | apply pieces_safe, H]. Qed.
+
+(* ---- deletion of the position attributes ---- *)
+(* an attribute written by name that carries the name data-sourcepos (the renderer writes none; the
+   clause is needed because the token-wise deletion goes by name) *)
+Definition own_sp_attr (a : attr) : bool :=
+  match a with
+  | Attr n _ => bytes_eqb n sp_name
+  | BAttr n => bytes_eqb n sp_name
+  | SpAttr _ => false
+  end.
+
+Definition no_own_sp_ev (e : ev) : bool :=
+  match e with
+  | Open _ a => forallb (fun x => negb (own_sp_attr x)) a
+  | Void _ a => forallb (fun x => negb (own_sp_attr x)) a
+  | _ => true
+  end.
+
+Definition no_own_sp (evs : list ev) : bool := forallb no_own_sp_ev evs.
+
+Definition keep_attr (a : bytes * option bytes) : bool := negb (bytes_eqb (fst a) sp_name).
+
+Lemma drop_sp_attr_open t a : drop_sp_attr (TOpen t a) = TOpen t (filter keep_attr a).
+Proof. reflexivity. Qed.
+Lemma drop_sp_attr_void t a : drop_sp_attr (TVoid t a) = TVoid t (filter keep_attr a).
+Proof. reflexivity. Qed.
+
+Lemma filter_tok_attrs a :
+  forallb (fun x => negb (own_sp_attr x)) a = true ->
+  filter keep_attr (map tok_attr a) = map tok_attr (filter not_sp a).
+Proof.
+  induction a as [|x a IH]; intro H; [reflexivity|].
+  cbn [forallb] in H. apply andb_true_iff in H. destruct H as [Hx Ha].
+  cbn [map filter]. rewrite (IH Ha).
+  destruct x as [n v|n|sp]; cbn [own_sp_attr] in Hx; cbn [tok_attr not_sp]; unfold keep_attr; cbn [fst].
+  - rewrite Hx. reflexivity.
+  - rewrite Hx. reflexivity.
+  - reflexivity.
+Qed.
+
+Definition piece_erase (p : piece) : piece :=
+  match p with PTok k => PTok (drop_sp_attr k) | PTxt b => PTxt b end.
+
+Lemma piece_of_erase e : no_own_sp_ev e = true -> piece_of (erase_sp e) = piece_erase (piece_of e).
+Proof.
+  destruct e; cbn [no_own_sp_ev erase_sp piece_of piece_erase]; intro H; try reflexivity.
+  - rewrite drop_sp_attr_open, (filter_tok_attrs _ H). reflexivity.
+  - rewrite drop_sp_attr_void, (filter_tok_attrs _ H). reflexivity.
+Qed.
+
+Definition is_cr (e : ev) : bool := match e with Cr => true | _ => false end.
+
+Lemma pieces_cons e r l : is_cr e = false ->
+  pieces l (e :: r) = piece_of e :: pieces (ends_lf l (ser_ev e)) r.
+Proof. destruct e; try discriminate; reflexivity. Qed.
+
+Lemma is_cr_erase e : is_cr (erase_sp e) = is_cr e.
+Proof. destruct e; reflexivity. Qed.
+
+Lemma pieces_erase : forall evs l, no_own_sp evs = true ->
+  pieces l (map erase_sp evs) = map piece_erase (pieces l evs).
+Proof.
+  unfold no_own_sp. induction evs as [|e r IH]; intros l H; [reflexivity|].
+  cbn [forallb] in H. apply andb_true_iff in H. destruct H as [He Hr].
+  cbn [map]. destruct (is_cr e) eqn:C.
+  - destruct e; try discriminate C. cbn [erase_sp pieces]. destruct l; cbn [map]; rewrite (IH _ Hr); reflexivity.
+  - rewrite (pieces_cons (erase_sp e)) by (rewrite is_cr_erase; exact C).
+    rewrite (pieces_cons e) by exact C. cbn [map].
+    rewrite ends_lf_erase, (piece_of_erase _ He), (IH _ Hr). reflexivity.
+Qed.
+
+Lemma merge_erase : forall ps pend,
+  merge pend (map piece_erase ps) = map drop_sp_attr (merge pend ps).
+Proof.
+  induction ps as [|p r IH]; intro pend; cbn [map merge].
+  - destruct pend; reflexivity.
+  - destruct p as [k|b]; cbn [piece_erase merge]; [|apply IH].
+    rewrite map_app, IH. cbn [map]. destruct pend; reflexivity.
+Qed.
+
+Theorem toks_of_erase evs : no_own_sp evs = true ->
+  toks_of (map erase_sp evs) = map drop_sp_attr (toks_of evs).
+Proof. intro H. unfold toks_of. rewrite (pieces_erase _ _ H). apply merge_erase. Qed.
+
+Theorem strip_sourcepos_ser evs : lexable evs = true -> no_own_sp evs = true ->
+  strip_sourcepos (ser evs) = Some (ser (map erase_sp evs)).
+Proof.
+  intros L N. unfold strip_sourcepos. rewrite (html_lex_ser _ L), <- (toks_of_erase _ N), toks_of_print.
+  reflexivity.
+Qed.
+
+(* ---- the byte-level checks on the serialisation of an event list ---- *)
+Theorem safe_check_ser evs : forallb safe_ev evs = true -> html_safe_check (ser evs) = 0%N.
+Proof.
+  intro H. unfold html_safe_check. rewrite (html_lex_ser _ (safe_lexable _ H)), (toks_of_safe _ H). reflexivity.
+Qed.
+
+Theorem balanced_check_ser evs : lexable evs = true -> well_nested evs = true ->
+  html_balanced_check (ser evs) = 0%N.
+Proof.
+  intros L W. unfold html_balanced_check. rewrite (html_lex_ser _ L), tok_nest_toks_of.
+  unfold well_nested in W. destruct (nest [] evs) as [[|x s]|]; try discriminate W. reflexivity.
+Qed.
